@@ -159,3 +159,4 @@ m("C13", ["R31"], PW, "        self * self\n", "        self * self.hi\n", "the 
 m("C18", ["R49"], HY, "        if self < 1.0 {\n            return Self::NAN;\n        }\n        (self + (self * self - 1.0).sqrt()).ln()", "        (self + (self * self - 1.0).sqrt()).ln()", "fix D10 reverted: acosh without its domain test (large negative arguments with a low word return finite values)")
 m("C15", ["R39"], EX, "        } else if self.hi < -0.5 {", "        } else if self.hi < -2.0 {", "fix D11 disabled: ln_1p next to -1 starts from log1p(hi) again")
 m("C15", ["R39"], EX, "            (1.0 + self).ln()", "            Self::from(1.0 + self.hi).ln()", "ln_1p next to -1 drops the low word when forming 1 + x")
+m("C10", ["R16"], NI, "        self.hi.is_nan() || self.lo.is_nan()\n    }\n}\n\nimpl num_traits::NumCast", "        self.hi.is_nan()\n    }\n}\n\nimpl num_traits::NumCast", "a new inherent is_nan that reads the high word only, next to trait methods that read both (entry points no longer agree with their inherent counterpart)", on="G0-3")
